@@ -6,19 +6,17 @@ PROP = dict(
         "ntp_proto::packet::extension_fields::ExtensionFieldData::serialize (RFC 7822 minimum sizes 16/28 on re-encode), ExtensionField::encode_encrypted",
     ],
     bounds=("NTPv3/NTPv4 requests of 48 and 52 bytes (all content bytes symbolic, first byte constant) under serve/deny policy; "
-            "NTPv4 templates header|uid(L1)|uid(L2)|trailer for (L1,L2,trailer) = (16,28,0) [holds] and (4,4,24) [known finding]; "
             "symbolic reception time, clock reading and synchronisation state, identical for both servers"),
-    outside=("NTPv5 and NTS requests (the answer-size argument for NTS is part of C19's cover goal 'answer exactly as long as the request'; see report: an authenticated unique identifier shorter than 16 bytes, "
-             "or a request nonce shorter than 16 bytes, also makes the answer longer than the request); other extension-field layouts; requests above 92 bytes"),
+    outside=("every request with extension fields (NTPv4 with unique identifiers, NTPv5, NTS): the harnesses c17_fit_v4_uids and c17_fit_kf_short_uids exist but are not registered (symbolic execution of the answer serializer "
+             "for answers with extension fields exceeds the memory cap, see C18). The property is FALSE there: harness/np_srvnts_h/examples/c17_short_uids.rs reproduces natively (release, real crypto) an 80-byte NTPv4 request "
+             "(two 4-byte unique identifiers + 24-byte MAC) answered with 92 bytes and a 204-byte NTS request (4-byte unique identifier) answered with 212 bytes; with a request-sized buffer both are dropped with InternalError"),
     assumptions=[
-        "defect predicate P_uid (assumed away in c17_fit_*, assumed in c17_fit_kf_short_uids): the NTPv4 request carries at least two unique-identifier fields and one of them is shorter than the RFC 7822 minimum it is re-encoded with (16 bytes; 28 bytes for the last field of the answer)",
+        "requests without extension fields only (the defect region 'a unique identifier shorter than the minimum size it is re-encoded with' lies outside, see outside)",
         "server state and policy as in C18",
     ],
     stub_notes=["as C18"],
     harnesses=[
-        H(NP, "c17", "c17_fit_v3", "NTPv3 48/52-byte requests: answered with 1024-byte buffer => answered identically with a request-sized buffer", timeout=900),
+        H(NP, "c17", "c17_fit_v3", "NTPv3 48/52-byte requests (serve, deny): answered with a 1024-byte buffer => answered identically (length, statistics) with a request-sized buffer", timeout=900),
         H(NP, "c17", "c17_fit_v4", "NTPv4 48/52-byte requests: same", timeout=900),
-        H(NP, "c17", "c17_fit_v4_uids", "NTPv4 request with two unique identifiers at their minimum sizes (16, 28): answer = request length, fits", tier="thorough", timeout=1800),
-        H(NP, "c17", "c17_fit_kf_short_uids", "EXPECTED TO FAIL: two 4-byte unique identifiers + 24-byte MAC (80 bytes) are answered with 92 bytes; with a request-sized buffer the request is dropped (InternalError)", tier="thorough", timeout=1800),
     ],
 )
